@@ -2,6 +2,7 @@
 from engine import guards as G
 from engine import mir
 from . import common as K
+from . import detectors as D
 from .common import CERT, POOL, SLOT_STATE, VOTOR, fshort
 
 EXPLANATION = (
@@ -48,32 +49,12 @@ def ob_store_before_aggregate(run, oid):
     if b is None:
         o.missing("SlotState::add_vote")
         return
-    tr = prog.trans_field_reads(SV)
-    stores = {}
-    for (bb, owner, name, sp, _l, _pl) in b.mut_borrows_of_fields():
-        if owner == SV:
-            stores.setdefault(name, []).append((bb, sp))
-    for (bb, owner, name, rv, sp, dst) in b.field_writes():
-        if owner == SV:
-            stores.setdefault(name, []).append((bb, sp))
+    res = D.store_before_readers(prog, b, SV)
     for f in K.adt_fields(prog, SV) or []:
-        if f not in stores:
+        if f not in res:
             o.fail("%s|SlotVotes.%s|no-store" % (fshort(b.defpath), f), "SlotState::add_vote never stores into SlotVotes.%s" % f, b.span)
-    for f, sts in sorted(stores.items()):
-        for (sbb, ssp) in sts:
-            bad = []
-            nread = 0
-            for c in b.calls():
-                reads = set()
-                for t in prog.callees_of_site(c):
-                    reads |= tr.get(t, set())
-                if f not in reads:
-                    continue
-                nread += 1
-                if c.bb != sbb and b.can_reach(c.bb, sbb) and not b.can_reach(sbb, c.bb):
-                    bad.append(c)
-                elif c.bb != sbb and b.can_reach(c.bb, sbb) and b.can_reach(sbb, c.bb):
-                    bad.append(c)  # loop: conservative
+    for f, sts in sorted(res.items()):
+        for (sbb, ssp, bad, nread) in sts:
             key = "%s|SlotVotes.%s" % (fshort(b.defpath), f)
             if bad:
                 for c in bad:
@@ -108,6 +89,11 @@ def ob_thresholds_creation(run, oid):
                 o.fail(key + "|quorum", "%sCert constructed without a dominating %s(..) == true guard (found: %s)" % (kind, spec["quorum"], wrong or "none"), c.span,
                        {"guards": G.atoms_show(atoms)})
                 continue
+            rec = [lambda a: a[0] == "bool" and a[1][0][0] == "call" and a[1][0][1].startswith(EPOCH + "is_") and a[2] is True and a[1][0][1] == EPOCH + spec["quorum"],
+                   lambda a: a[0] == "is_some" and a[2] is False and K.mentions_field(a[1][0], spec["once"] or "-", "SlotCertificates"),
+                   lambda a: a[0] == "bool" and a[2] is False and a[1][0][0] == "call" and a[1][0][1].endswith("SlotState::is_notar_fallback")]
+            extra = D.extra_guards(prog, b, bb, rec)
+            o.check(not extra, key + "|no-extra-condition", "no further condition delays the certificate ('exists as soon as the votes reach the threshold')", c.span, {"extra": G.atoms_show(extra)})
             stake_term = found[1][0][2][1]
             pv = b.provenance(stake_term)
             fs = set(n for (ow, n) in pv["fields"] if ow == SVS)
